@@ -38,7 +38,8 @@ def gen_cases(tier, seed):
                                     max_cells=40)
     for i, c in enumerate(cases):
         c['normalization'] = 'raw'
-        c['x_dtype'] = str(rng.choice(['float64', 'int32', 'int64']))
+        c['x_dtype'] = str(rng.choice(['float64', 'int32', 'int64',
+                                       'uint16']))
         c['bootstrap_iteration'] = int(rng.choice([1, 4, 10]))
         c['bootstrap_factor'] = float(rng.choice([0.4, 0.7, 1.0]))
         c['n_cells'] = max(c['n_cells'], 3)
